@@ -169,6 +169,15 @@ class WindowedClickThroughRate(
         else:
             return windowed_click_through_rate
 
+    def reset(self: TWindowedClickThroughRate) -> TWindowedClickThroughRate:
+        """
+        Reset the metric state variables to their default value and rewind
+        the window cursor, which is not a registered state.
+        """
+        super().reset()
+        self.next_inserted = 0
+        return self
+
     @torch.inference_mode()
     def merge_state(
         self: TWindowedClickThroughRate, metrics: Iterable[TWindowedClickThroughRate]
